@@ -251,6 +251,26 @@ pub fn run(args: &Args) -> serde_json::Value {
             oracle_failures.push(json!({"what": "tempering driver cadence wrong", "T": t, "swap": s, "freq": f, "parallel": par,
                 "temper_times": temper_times, "steps_per_replica": per_rep_steps}));
         }
+        // WHICH configuration a sample shows: the one that sits at that ladder position once the exchanges due at
+        // that time have been made, i.e. the one the position's NEXT time step works on (or, for the last sample,
+        // the one the container holds at the end)
+        let mut cfg_at: Vec<Vec<usize>> = vec![vec![]; nrep];
+        for e in &evs {
+            if let Ev::Step(p, cfg, _) = e {
+                cfg_at[*p].push(*cfg);
+            }
+        }
+        let final_cfg: Vec<usize> = tc.graph_ref().iter().map(|(g, _)| g.cfg).collect();
+        'positions: for i in 0..nrep {
+            for (cfg, tau) in sampled[i].iter() {
+                let want = if *tau < cfg_at[i].len() { cfg_at[i][*tau] } else { final_cfg[i] };
+                if *cfg != want {
+                    oracle_failures.push(json!({"what": format!("tempering driver: the sample taken at step {} at ladder position {} shows configuration {} but that position holds configuration {} once the exchanges due at that step are made", tau, i, cfg, want),
+                        "T": t, "swap": s, "freq": f, "parallel": par, "replicas": nrep}));
+                    break 'positions;
+                }
+            }
+        }
         // energy: per-step average of the operator counts actually seen at that ladder position
         for i in 0..nrep {
             let want = -((nsum[i] / t as f64) / beta) + i as f64 * 0.25;
